@@ -418,6 +418,27 @@ def choice_lattice():
         ents.append(obsv)
         order.append(["s", "OBSV"])
         out.append({"prog": ents, "ord": order, "vars": vars_, "family": "F-choice", "point": dict(members=list(pat), defaults=dflt, cprompt=cprompt, dep=dep, named=named, nested=nested)})
+    # a named choice defined in two places: the second definition adds a member and a default (conditions of the
+    # second definition carry its own dependencies; members of both definitions form one choice)
+    for pat, dflt, dep2 in itertools.product(member_pats[:4], (0, 1, 2), (0, 1)):
+        ents, order, vars_ = [], [], []
+        for g in ("G", "G2", "D"):
+            ents.append(gate(g))
+            order.append(["s", g])
+            vars_.append({"n": g, "kind": "sym", "cands": [NOVAL, "n"]})
+        mem = [mk_config("M%d" % (k + 1), "bool", prompt=(S("G") if p else Y)) for k, p in enumerate(pat)]
+        ch1 = {"k": "choice", "id": "CH", "title": "ch", "prompt": [Y], "dep": Y, "defaults": [], "children": mem}
+        if dflt == 1:
+            ch1["defaults"] = [{"m": "M2", "c": Y}]
+        ch2 = {"k": "choice", "id": "CH", "title": "ch", "prompt": [], "dep": (S("D") if dep2 else Y),
+               "defaults": ([{"m": "M4", "c": S("G2")}] if dflt == 2 else []), "children": [mk_config("M4", "bool", prompt=Y)]}
+        ents += [ch1, ch2]
+        order.append(["ch", "CH"])
+        order += [["s", "M%d" % k] for k in (1, 2, 3, 4)]
+        vars_.append({"n": "CH", "kind": "choice", "cands": [NOVAL, "M1", "M2", "M4"]})
+        ents.append(mk_config("OBS", "int", prompt=None, defaults=[{"v": C("1"), "c": S("M1")}, {"v": C("4"), "c": S("M4")}, {"v": C("0"), "c": Y}]))
+        order.append(["s", "OBS"])
+        out.append({"prog": ents, "ord": order, "vars": vars_, "family": "F-choice", "point": dict(members=list(pat), defaults=dflt, twice=True, dep2=dep2)})
     return out
 
 
